@@ -17,7 +17,7 @@ func init() {
 		ID:    "C17",
 		Title: "A cluster answers like a standalone node; part transfer is exact",
 		Decides: "(transfer half only) on the receiver every hand-over of chunk bytes to a part handler, and every advance of an expected-chunk counter, happens only on the checksum-match outcome — a chunk answered with a rejection status must not count as progress; sender and receiver compute the checksum the same way; only processExpectedChunk drives the handlers and it is entered only for the expected index; " +
-			"a received part is introduced only by FinishSync, after its metadata is written, and an abnormal end of the stream (deferred cleanup) can close but never finalize a part; Close of an unfinished context removes the partial directory and releases the segment; the sender reports failed parts with the same id format on the initial and the retry path and sends the sync introduction only after the transfer succeeded; the liaison's mem-part merge empties its group accumulator whenever the segment id changes (parts of two time segments are never merged into one shipped part).",
+			"a received part is introduced only by FinishSync, after its metadata is written, and an abnormal end of the stream (deferred cleanup) can close but never finalize a part; Close of an unfinished context removes the partial directory and releases the segment; the sender reports failed parts with the same id format on the initial and the retry path and sends the sync introduction only after the transfer succeeded; the liaison's mem-part merge empties its group accumulator whenever the segment id changes (parts of two time segments are never merged into one shipped part).; the trace syncer sorts the streaming parts after the last append and before every hand-over to a node (parts of one id adjacent)",
 		NotDecided: "cluster/standalone query equivalence, shard/segment attribution of rows end to end, receiver restarts, idempotence of re-processing after SERVER_BUSY.",
 		Technique:  "guarded-call / world pruning on the checksum comparison, interprocedural acceptance summary over status constants, who-may-call, static reachability from deferred cleanup, sibling agreement of formatting callees; must-reset between a group-change test and the next append",
 		Run:        runC17,
@@ -376,6 +376,44 @@ func runC17(c *core.Ctx) {
 			ok = ok && g
 		}
 		r.Check(ok, rule, construct, r.pos(exec[0]), "the parts are removed from the sender's snapshot only on the err == nil outcome of the transfer")
+	}
+
+	// trace ships core and secondary-index parts in one stream; the receiver opens a new part context whenever
+	// the part id changes, so the parts of one id must be adjacent: the list is sorted by (ID, PartType) with a
+	// comparator decided over all orderings, on every path to the hand-over
+	if f := r.fn("c17.streaming-parts-sorted", sibT.pkg, "(*tsTable).syncPartsToNodesHelper"); f != nil {
+		rule := "c17.streaming-parts-sorted"
+		ship := call("(*" + sibT.pkg + ".tsTable).syncStreamingPartsToNode")
+		sorted := call("sort.Slice", "slices.SortFunc", "sort.SliceStable", "slices.SortStableFunc")
+		construct := ssax.FuncName(f) + ": streaming parts are sorted before every hand-over to the node"
+		ships := ssax.Find(f, ship.M)
+		if len(ships) == 0 {
+			r.Undecide(rule, construct, r.fpos(f), "no syncStreamingPartsToNode call")
+		} else {
+			bad := false
+			for _, sh := range ships {
+				// the list handed over must have been sorted after its last append on every path:
+				// search backwards = from every append to the ship avoiding a sort
+				lst := sh.(*ssa.Call).Call.Args[len(sh.(*ssa.Call).Call.Args)-1]
+				for _, app := range ssax.Find(f, func(in ssa.Instruction) bool {
+					c, ok := in.(*ssa.Call)
+					if !ok {
+						return false
+					}
+					b, ok := c.Call.Value.(*ssa.Builtin)
+					return ok && b.Name() == "append" && c.Type().String() == lst.Type().String()
+				}) {
+					if tgt, path, found := (ssax.Search{Target: func(x ssa.Instruction) bool { return x == sh }, Avoid: sorted.M}).From(f, app); found {
+						bad = true
+						r.Violate(rule, construct, r.pos(tgt), fmt.Sprintf("a part appended at %s reaches the hand-over at %s (blocks %s) without the list being sorted: the wire order becomes [sidx:1, sidx:2, core:1, core:2], the receiver finishes a sidx-only context per id and discards the index files, and the parts are acknowledged", r.pos(app), r.pos(tgt), blocksStr(path)))
+						break
+					}
+				}
+			}
+			if !bad {
+				r.Hold(rule, construct, r.pos(ships[0]), fmt.Sprintf("%d hand-over site(s)", len(ships)))
+			}
+		}
 	}
 
 	// the liaison merges mem parts per time segment: the group accumulator is emptied whenever the segment
